@@ -44,6 +44,94 @@ func checkC14(c *Check) {
 	c.RuleDoc["R14.8"] = "the accumulation buffer (whose length is the block cut) is re-fetched from the current block size at frame start, so block boundaries do not depend on the object's history"
 }
 
+// zeroesWholeArray: fn contains a loop that stores the constant 0 into every
+// element of the array field: the index is a loop counter that starts at 0 (or
+// -1 in go/ssa's rotated range loops), advances by 1 and is bounded by the
+// array length; or fn calls clear() on a full slice of the field.
+func zeroesWholeArray(fn *ssa.Function, field string) bool {
+	found := false
+	allInstrs(fn, func(in ssa.Instruction) {
+		if call, ok := in.(*ssa.Call); ok {
+			if b, isB := call.Call.Value.(*ssa.Builtin); isB && b.Name() == "clear" && len(call.Call.Args) == 1 {
+				if sl, isS := call.Call.Args[0].(*ssa.Slice); isS && sl.Low == nil && sl.High == nil && lastField(sl.X) == field {
+					found = true
+				}
+			}
+		}
+		st, ok := in.(*ssa.Store)
+		if !ok {
+			return
+		}
+		if k, isK := constUint(st.Val); !isK || k != 0 {
+			return
+		}
+		ia, ok := st.Addr.(*ssa.IndexAddr)
+		if !ok || lastField(ia.X) != field {
+			return
+		}
+		var n int64 = -1
+		if pt, isP := ia.X.Type().Underlying().(*types.Pointer); isP {
+			if arr, isA := pt.Elem().Underlying().(*types.Array); isA {
+				n = arr.Len()
+			}
+		}
+		if n < 0 {
+			return
+		}
+		// index = counter or counter+1
+		idx := ia.Index
+		var ph *ssa.Phi
+		plus := int64(0)
+		if x, isPhi := idx.(*ssa.Phi); isPhi {
+			ph = x
+		} else if bo, isB := idx.(*ssa.BinOp); isB && bo.Op == token.ADD {
+			if x, isPhi := bo.X.(*ssa.Phi); isPhi {
+				if k, isK := constUint(bo.Y); isK && k == 1 {
+					ph, plus = x, 1
+				}
+			}
+		}
+		if ph == nil || len(ph.Edges) != 2 {
+			return
+		}
+		start, step := int64(-99), false
+		var next ssa.Value
+		for _, e := range ph.Edges {
+			if k, isK := e.(*ssa.Const); isK && k.Value != nil {
+				start = k.Int64()
+			} else if bo, isB := e.(*ssa.BinOp); isB && bo.Op == token.ADD && bo.X == ssa.Value(ph) {
+				if k, isK := constUint(bo.Y); isK && k == 1 {
+					step, next = true, bo
+				}
+			}
+		}
+		if !step || start+plus != 0 {
+			return
+		}
+		// bound: a comparison of the counter (or its successor) with the array length governs the loop
+		bounded := false
+		for _, cand := range []ssa.Value{ph, next} {
+			if cand == nil || cand.Referrers() == nil {
+				continue
+			}
+			for _, r := range *cand.Referrers() {
+				if bo, isB := r.(*ssa.BinOp); isB && bo.Op == token.LSS && bo.X == cand {
+					if k, isK := bo.Y.(*ssa.Const); isK && k.Value != nil && k.Int64() == n {
+						// store index equals the compared value
+						if (cand == ssa.Value(ph) && plus == 0) || (cand == next && plus == 1) {
+							bounded = true
+						}
+					}
+				}
+			}
+		}
+		if bounded {
+			found = true
+		}
+	})
+	return found
+}
+
 func ruleFastReset(c *Check, p *Program, rule string) {
 	fn := findFn(c, p, rule, "internal/lz4block", "Compressor.CompressBlock")
 	if fn == nil {
@@ -110,7 +198,10 @@ func ruleFastReset(c *Check, p *Program, rule string) {
 				}
 			}
 		})
-		c.Cond(ok, rule, "Compressor.reset#clears-bitmap", p.Pos(rf.Pos()), "reset stores the zero value into the whole inUse bitmap", "inUse = [..]uint32{}", "reset does not store a zero array into Compressor.inUse")
+		if !ok {
+			ok = zeroesWholeArray(rf, "Compressor.inUse")
+		}
+		c.Cond(ok, rule, "Compressor.reset#clears-bitmap", p.Pos(rf.Pos()), "reset stores the zero value into the whole inUse bitmap", "inUse = [..]uint32{} or an element loop over the whole array", "reset does not store a zero array into Compressor.inUse")
 		// get consults the bitmap before using a table entry
 		if gf := p.Func("internal/lz4block", "Compressor.get"); gf != nil {
 			okGet := false
@@ -295,39 +386,60 @@ func ruleSingleSinkWriter(c *Check, p *Program, rule string) {
 	if wr == nil {
 		return
 	}
-	allowed := map[string]bool{"Writer.write": true, "Blocks.initW$1": true, "CompressingReader.Read": true}
-	var callers []string
+	// (a) the only goroutine from which a block can be written to the sink is the one
+	// started in Blocks.initW (the single ordering goroutine); (b) every synchronous path
+	// from Writer.write to FrameDataBlock.Write lies under the sequential guard.
+	var notes []string
 	ok := true
+	nGo, nWriters := 0, 0
 	for _, fn := range moduleFuncs(p, pkgRoot, pkgStream) {
-		for _, ci := range callsIn(fn) {
-			if staticCallee(ci) != wr {
-				continue
-			}
-			c.Sites++
-			s := shortFn(fn)
-			callers = append(callers, s)
-			if !allowed[s] {
-				ok = false
-			}
-			if s == "Writer.write" {
-				seq := false
-				for _, a := range atomsOfBlock(ci.Block()) {
-					if a.Kind == "call" && strings.HasSuffix(a.Name, "isNotConcurrent") && a.Val {
-						seq = true
+		for _, f := range withAnon(fn) {
+			allInstrs(f, func(in ssa.Instruction) {
+				g, isGo := in.(*ssa.Go)
+				if !isGo {
+					return
+				}
+				nGo++
+				t := goTarget(g)
+				if t == nil {
+					return
+				}
+				if reachesFn(t, wr) {
+					nWriters++
+					c.Sites++
+					parent := f
+					for parent.Parent() != nil {
+						parent = parent.Parent()
+					}
+					notes = append(notes, "goroutine started in "+shortFn(f)+" writes blocks")
+					if shortFn(parent) != "Blocks.initW" {
+						ok = false
+						notes = append(notes, "(a goroutine other than the ordering goroutine of Blocks.initW reaches FrameDataBlock.Write: "+shortFn(t)+")")
 					}
 				}
-				if !seq {
-					ok = false
-					callers = append(callers, "(Writer.write writes to the sink outside the sequential branch)")
-				}
-			}
-			if _, isGo := ci.(*ssa.Go); isGo {
-				ok = false
-			}
+			})
 		}
 	}
-	sort.Strings(callers)
-	c.Cond(ok && len(callers) >= 3, rule, "FrameDataBlock.Write#callers", p.Pos(wr.Pos()), "blocks are written to the sink only by the sequential caller or by the single ordering goroutine (never by the per-block workers)", "callers: "+strings.Join(callers, ", "), "callers: "+strings.Join(callers, ", "))
+	if w := p.Func("", "Writer.write"); w != nil {
+		deepCalls(w, 3, func(ci ssa.CallInstruction, chain []ssa.CallInstruction) {
+			if staticCallee(ci) != wr {
+				return
+			}
+			c.Sites++
+			seq := false
+			for _, a := range chainAtoms(ci, chain) {
+				if a.Kind == "call" && strings.HasSuffix(a.Name, "isNotConcurrent") && a.Val {
+					seq = true
+				}
+			}
+			if !seq {
+				ok = false
+				notes = append(notes, "(Writer.write writes to the sink outside the sequential branch at "+p.InstrPos(ci)+")")
+			}
+		})
+	}
+	sort.Strings(notes)
+	c.Cond(ok && nWriters == 1 && nGo >= 5, rule, "FrameDataBlock.Write#callers", p.Pos(wr.Pos()), "blocks are written to the sink only by the sequential caller or by the single ordering goroutine (never by the per-block workers)", fmt.Sprintf("%d go statements; goroutines that can reach FrameDataBlock.Write: %d (%s)", nGo, nWriters, strings.Join(notes, "; ")), fmt.Sprintf("%d go statements; goroutines that can reach FrameDataBlock.Write: %d; %s", nGo, nWriters, strings.Join(notes, "; ")))
 }
 
 // ---------------------------------------------------------------------------
@@ -335,7 +447,7 @@ func ruleSingleSinkWriter(c *Check, p *Program, rule string) {
 
 func checkC16(c *Check) {
 	c.Explain = "Structure of dependent-block decoding: (R16.1) frames without the independence flag are decoded sequentially (InitR receives concurrency 1 on that path); (R16.2) the rolling dictionary r.dict is what reaches lz4block.UncompressBlock for every sequential block; (R16.3) after each block the dictionary becomes a suffix of the old dictionary followed by the whole decoded block, the retained suffix being computed as 64 KiB minus the block length and trimming only above a threshold of at least twice the window; (R16.4) the update is governed by the independence flag only, so stored (raw) blocks enter the window too."
-	c.Uncov = []string{"exact decoded bytes", "numeric proof of the window bound (pending the bounds prover: R16.3 checks the shape and constants of the trim)"}
+	c.Uncov = []string{"exact decoded bytes", "the window contents as bytes (R16.3 proves the retained length and suffix position, not the data)"}
 	c.Trusted = trustedSSA
 	for k, v := range map[string]string{"R16.1": "dependent frames decode sequentially", "R16.2": "dictionary argument provenance", "R16.3": "window retention shape", "R16.4": "update guard"} {
 		c.RuleDoc[k] = v
@@ -347,6 +459,7 @@ func checkC16(c *Check) {
 	ruleDependentSequential(c, p, "R16.1")
 	ruleDictProvenance(c, p, "R16.2")
 	ruleWindowRetention(c, p, "R16.3")
+	ruleWindowNumeric(c, p, "R16.3", "")
 	// the dictionary path of the block decoder: reads stay inside dict[0:len] and the
 	// underflow error is raised only for offsets that really reach before the dictionary
 	c.RuleDoc["R16.6"] = "assembly decoder: dictionary accesses in bounds, dictionary error exit justified"
@@ -479,76 +592,7 @@ func ruleWindowRetention(c *Check, p *Program, rule string) {
 	}
 	got := relAtoms(app.Block(), nil)
 	c.Cond(okApp && sameSet(got, []string{"!flag:BlockIndependence"}), rule, "Reader.read#window-append", p.InstrPos(app), "for dependent frames, and only governed by that flag (so raw blocks count too), the whole decoded block is appended to the dictionary", "r.dict = append(r.dict, dst...) under {!flag:BlockIndependence}", fmt.Sprintf("appends the decoded block to r.dict: %v; guards {%s}", okApp, strings.Join(got, ", ")))
-	// trims: every other store to r.dict must keep a suffix: r.dict[len(r.dict)-k:] with k = W - len(dst) clamped at 0, W >= 65535
-	if len(trims) == 0 {
-		c.OK(rule, "Reader.read#window-trim", p.InstrPos(app), "the dictionary is never trimmed (unbounded but correct)", "no trimming store", false)
-	}
-	for i, st := range trims {
-		key := "Reader.read#window-trim"
-		if i > 0 {
-			key += fmt.Sprintf("#%d", i+1)
-		}
-		c.Sites++
-		sl, isSl := st.Val.(*ssa.Slice)
-		okSuffix := false
-		var keep ssa.Value
-		if isSl && loadField(sl.X) == "Reader.dict" && sl.High == nil && sl.Max == nil && sl.Low != nil {
-			if b, isB := sl.Low.(*ssa.BinOp); isB && b.Op == token.SUB {
-				if lc, isC := b.X.(*ssa.Call); isC {
-					if bi, isBi := lc.Call.Value.(*ssa.Builtin); isBi && bi.Name() == "len" && loadField(lc.Call.Args[0]) == "Reader.dict" {
-						okSuffix = true
-						keep = b.Y
-					}
-				}
-			}
-		}
-		if !okSuffix {
-			c.Fail(rule, key, p.InstrPos(st), "trimming keeps a suffix of the dictionary (the most recent bytes): r.dict = r.dict[len(r.dict)-keep:]", "the value stored into r.dict is "+shortVal(st.Val)+", not a suffix slice of r.dict: the retained window would not be the most recent history")
-			continue
-		}
-		// keep = max(W - len(dst), 0), W >= 65535
-		okKeep := false
-		var w uint64
-		var chk func(v ssa.Value) bool
-		chk = func(v ssa.Value) bool {
-			switch x := v.(type) {
-			case *ssa.Phi:
-				all := true
-				for _, e := range x.Edges {
-					if k, isK := constUint(e); isK && k == 0 {
-						continue
-					}
-					if !chk(e) {
-						all = false
-					}
-				}
-				return all
-			case *ssa.BinOp:
-				if x.Op == token.SUB {
-					if k, isK := constUint(x.X); isK {
-						if lc, isC := x.Y.(*ssa.Call); isC {
-							if bi, isBi := lc.Call.Value.(*ssa.Builtin); isBi && bi.Name() == "len" && (dst == nil || lc.Call.Args[0] == dst) {
-								w = k
-								return true
-							}
-						}
-					}
-				}
-			}
-			return false
-		}
-		okKeep = chk(keep) && w >= 65535
-		// threshold: guarded by len(dict)+len(dst) > T with T >= 2*W would be amortisation only; correctness needs just W
-		var thr uint64
-		for _, l := range guardsOf(st.Block()) {
-			if b, isB := l.Cond.(*ssa.BinOp); isB && (b.Op == token.GTR || b.Op == token.GEQ) && l.Val {
-				if k, isK := constUint(b.Y); isK {
-					thr = k
-				}
-			}
-		}
-		c.Cond(okKeep && thr >= w, rule, key, p.InstrPos(st), "the retained suffix is (W - len(block)) clamped at 0 with W >= 65535, so that after appending the block at least the last 65535 bytes of history remain; trimming happens only when more than W bytes are held", fmt.Sprintf("suffix slice; W = %d; threshold = %d", w, thr), fmt.Sprintf("retained length is W - len(block) clamped at 0 with W >= 65535: %v (W = %d); trim threshold %d", okKeep, w, thr))
-	}
+	_ = trims // the trim itself is decided numerically by ruleWindowNumeric
 }
 
 // ---------------------------------------------------------------------------
